@@ -5,8 +5,7 @@ Require Extraction.
 From Coq Require Import ExtrOcamlBasic.
 From Coq Require Import String ZArith List Bool.
 From Nexus Require Import Transport.GoArith Transport.RawOps Transport.RawFrame Transport.RawSpec
-  Transport.RawGen Transport.RawHandshake Transport.PeerDiscipline Transport.RawLegacy
-  Transport.RawTheorems gen.GenC15.
+  Transport.RawGen Transport.RawHandshake Transport.PeerDiscipline gen.GenC15.
 
 Definition m_recv := recv (fun _ => true) gen_params.
 Definition m_select := select_ops gen_params.
@@ -22,8 +21,6 @@ Definition m_machine (sched : list who) (body hdr payload : list Z) : state :=
                   (reader_frames (ops_for gen_params 1 (len payload)) gen_mutex ((hdr, payload) :: nil))).
 (* the reference instance, for the monitor side of a verdict *)
 Definition s_recv := recv (fun _ => true) spec_params.
-Definition s_send_drop := p_send_drop spec_params.
-Definition s_send_header := p_send_header spec_params.
 
 Extraction "c15model"
   server_handshake client_handshake accept_handshake connect_handshake
@@ -32,4 +29,4 @@ Extraction "c15model"
   c_magic c_rawsocketJSON c_rawsocketMsgpack c_rawsocketCBOR
   m_recv m_select m_send_writes m_send_drop m_send_header m_send_ops m_discipline m_mutex
   m_machine tags wire_bytes contiguousb finished
-  s_recv s_send_drop s_send_header spec_server spec_client hs_eqb.
+  s_recv.
